@@ -224,7 +224,7 @@ PROPS = {
         "no_panic": ["rpc ", "rpcq ", "embargo ", "rpcgen "],
     },
     "C08": {
-        "modules": ["Capnp.Props.C08"],
+        "modules": ["Capnp.Props.C08", "Capnp.Props.C08R"],
         "gen": False,
         "confirm": True,
         "rule": "mixed rpc scripts with hostile messages: unknown union members (message, target, transform op, return, disembargo context), "
